@@ -208,7 +208,7 @@ class Results:
 
     def floor(self, rule, what, n, minimum):
         if n < minimum:
-            self.lost(rule, 'floor not met: %s = %d < %d (confirmed by hand on the pinned tree)' % (what, n, minimum))
+            self.lost(rule, 'floor not met: %s = %d < %d (floors: DESIGN.md section 6)' % (what, n, minimum))
         else:
             self.count(rule + ' ' + what, n)
 
